@@ -683,6 +683,161 @@ def suite_resampler_histories(ctx):
         ctx.count("resampler.history." + ("key_modify_key" if key_after_modification else "other"))
 
 
+def suite_coord_dtype_spellings(ctx):
+    """lon/lat definitions (SwathDefinition 1-D and 2-D, CoordinateDefinition, GridDefinition) built from the same numbers in many spellings:
+    ndarray of several dtypes (float64/32/16, int64/32/16, uint8), nested lists / tuples of Python ints or floats, lists mixing ints and floats,
+    lists / tuples of numpy scalars of one dtype, lists of 1-D row arrays, xarray-wrapped numpy.  What numpy itself makes of a spelling
+    (`np.array(spelling)`: values and dtype) is its 'natural' array; the property says list vs array / numpy vs xarray "of one dtype" are the
+    same geometry.  So (a) every spelling against the definition built from its own natural array, and (b) every two spellings of one group
+    whose natural arrays have the same dtype and values MUST be ==, have equal hash(), equal update_hash digest, equal resampler cache keys and
+    collapse to one element in a set - also after hash() followed by append() of the same piece to both.  Pairs with equal values but
+    DIFFERENT natural dtypes (int64 list vs float64 array) are only observed (counters), never flagged.  Own random stream; both sides real code."""
+    import random
+
+    import xarray as xr
+    from pyresample.geometry import CoordinateDefinition, GridDefinition, SwathDefinition
+    r = random.Random(f"c12-dtype-spellings-{ctx.seed}")
+    other = _mk("EPSG:4326", 7, 3, (0, 0, 7, 3))
+    classes = {"SwathDefinition": SwathDefinition, "CoordinateDefinition": CoordinateDefinition, "GridDefinition": GridDefinition}
+    dtypes = [np.float64, np.float32, np.float16, np.int64, np.int32, np.int16, np.uint8]
+
+    def nest(arr, conv, seq):
+        """arr as nested `seq`s (list / tuple) of conv(element)"""
+        if arr.ndim == 1:
+            return seq(conv(v) for v in arr)
+        return seq(seq(conv(v) for v in row) for row in arr)
+
+    def spellings(arr):
+        """[(name, spelling)] of the numbers held by `arr` (dtype D): what numpy makes of each one is computed by the caller"""
+        D = arr.dtype.type
+        integral = bool(np.all(np.asarray(arr, dtype=np.float64) == np.rint(np.asarray(arr, dtype=np.float64))))
+        out = [(f"ndarray[{arr.dtype.name}]", arr.copy()),
+               ("list-of-python-scalars", arr.tolist()),
+               ("tuple-of-python-scalars", nest(arr, lambda v: v.item(), tuple)),
+               (f"list-of-np.{arr.dtype.name}", nest(arr, D, list)),
+               (f"tuple-of-np.{arr.dtype.name}", nest(arr, D, tuple)),
+               (f"DataArray[{arr.dtype.name}]", xr.DataArray(arr.copy(), dims=("y", "x")[-arr.ndim:])),
+               ("ndarray[float64]", arr.astype(np.float64)),
+               ("list-of-python-floats", nest(arr, float, list))]
+        if arr.ndim == 2:
+            out.append((f"list-of-row-arrays[{arr.dtype.name}]", [row.copy() for row in arr]))
+            out.append((f"F-ordered[{arr.dtype.name}]", np.asfortranarray(arr)))
+        if integral:
+            out.append(("list-of-python-ints", nest(arr, int, list)))
+            out.append(("tuple-of-python-ints", nest(arr, int, tuple)))
+            out.append(("ndarray[int64]", arr.astype(np.int64)))
+            flip = [0]
+
+            def mixed(v):
+                flip[0] += 1
+                return int(v) if flip[0] % 2 else float(v)
+            out.append(("list-mixing-ints-and-floats", nest(arr, mixed, list)))
+        return out
+
+    def facts(d, keys=True):
+        with warnings.catch_warnings():
+            warnings.simplefilter("ignore")
+            return {"hash": hash(d), "digest": d.update_hash().hexdigest(),
+                    "keys": (_keys(d, other, radius=1.0) + _keys(other, d, radius=1.0)) if keys else None}
+
+    def compare(a, fa, b, fb):
+        probs = []
+        with warnings.catch_warnings():
+            warnings.simplefilter("ignore")
+            if not (a == b and b == a) or (a != b):
+                probs.append("compare unequal")
+            if fa["hash"] != fb["hash"]:
+                probs.append("hash() differs")
+            if fa["digest"] != fb["digest"]:
+                probs.append("update_hash digest differs")
+            if fa["keys"] != fb["keys"]:
+                probs.append("resampler cache key differs")
+            if "compare unequal" not in probs and len({a, b}) != 1:
+                probs.append("a set of the two keeps both")
+        return probs
+
+    for it in range(30 if ctx.quick else 300):
+        cname = r.choice(["SwathDefinition", "SwathDefinition", "SwathDefinition", "CoordinateDefinition", "GridDefinition"])
+        klass = classes[cname]
+        ndim = 2 if cname == "GridDefinition" or r.random() < 0.6 else 1
+        shape = (r.randrange(1, 5), r.randrange(2, 6)) if ndim == 2 else (r.randrange(2, 8),)
+        D = r.choice(dtypes)
+        n = int(np.prod(shape))
+        if np.issubdtype(D, np.integer) or r.random() < 0.3:       # whole degrees (a coarse mesh)
+            lo_min = 0 if D is np.uint8 else -180
+            la_min = 0 if D is np.uint8 else -90
+            lons = np.array([r.randrange(lo_min, 181) for _ in range(n)]).reshape(shape).astype(D)
+            lats = np.array([r.randrange(la_min, 91) for _ in range(n)]).reshape(shape).astype(D)
+        else:
+            lons = np.array([r.uniform(-180, 180) for _ in range(n)]).reshape(shape).astype(D)
+            lats = np.array([r.uniform(-90, 90) for _ in range(n)]).reshape(shape).astype(D)
+        sp_lo, sp_la = spellings(lons), spellings(lats)
+        built = []
+        for (nm, s_lo), (_, s_la) in zip(sp_lo, sp_la):
+            # what numpy itself makes of the spelling: the array the property's "list vs array of one dtype" refers to
+            nat_lo, nat_la = np.array(s_lo), np.array(s_la)
+            if nat_lo.dtype != nat_la.dtype or nat_lo.dtype == object:
+                continue
+            if cname == "GridDefinition" and isinstance(s_lo, (list, tuple)):
+                continue             # (its constructor takes arrays only: plain sequences raise AttributeError, nothing to compare)
+            inp = {"class": cname, "shape": list(shape), "numbers_dtype": np.dtype(D).name, "spelling": nm, "natural_dtype": nat_lo.dtype.name,
+                   "lons": np.asarray(lons, dtype=np.float64).tolist(), "lats": np.asarray(lats, dtype=np.float64).tolist()}
+            try:
+                with warnings.catch_warnings():
+                    warnings.simplefilter("ignore")
+                    d = klass(s_lo, s_la)
+                    ref = klass(nat_lo.copy(), nat_la.copy())
+                    fd, fr_ = facts(d), facts(ref)
+            except Exception as e:  # noqa
+                ctx.fail(f"{cname}.__init__", f"built from {nm}: raised {type(e).__name__}: {str(e)[:120]}", inp, size=n)
+                continue
+            built.append((nm, nat_lo, nat_la, d, fd))
+            ctx.case("coord.dtype_spellings", (cname, shape, np.dtype(D).name, nm, float(lons.flat[0]), float(lats.flat[-1])),
+                     nontrivial=not isinstance(s_lo, np.ndarray), sample={"input": {k: v for k, v in inp.items() if k not in ("lons", "lats")}}
+                     if nat_lo.dtype != np.float64 and isinstance(s_lo, (list, tuple)) else None)
+            ctx.count(f"coord.dtype_spellings.natural_{nat_lo.dtype.name}." + ("sequence" if isinstance(s_lo, (list, tuple)) else "array"))
+            probs = compare(d, fd, ref, fr_)
+            if probs:
+                ctx.fail("BaseDefinition.update_hash", f"{cname} built from {nm} vs built from np.array(<the same {type(s_lo).__name__}>) (dtype {nat_lo.dtype.name}, "
+                         "the same values): " + ", ".join(probs), inp, {"dtype_held": str(getattr(d.lons, "dtype", None)), "dtype_of_np_array": nat_lo.dtype.name},
+                         tags={"kind": "dtype-spelling", "natural_dtype": nat_lo.dtype.name}, size=n)
+                continue
+            # hash, then append the same (array) piece to both: still the same geometry
+            if ndim == 2 and not isinstance(s_lo, xr.DataArray) and cname != "GridDefinition" and r.random() < 0.5:
+                with warnings.catch_warnings():
+                    warnings.simplefilter("ignore")
+                    d2, ref2 = klass(s_lo, s_la), klass(nat_lo.copy(), nat_la.copy())
+                    hash(d2), hash(ref2)
+                    piece_lo, piece_la = nat_lo[:1].copy(), nat_la[:1].copy()
+                    d2.append(klass(piece_lo, piece_la))
+                    ref2.append(klass(piece_lo, piece_la))
+                    probs = compare(d2, facts(d2, keys=False), ref2, facts(ref2, keys=False))
+                ctx.case("coord.dtype_spellings.append", (cname, shape, np.dtype(D).name, nm, float(lons.flat[0])), nontrivial=True)
+                if probs:
+                    ctx.fail("CoordinateDefinition.append", f"{cname} built from {nm} vs from np.array(<the same>) (dtype {nat_lo.dtype.name}), both hashed and then "
+                             "extended by the same rows: " + ", ".join(probs), {**inp, "history": ["hash", "append(first row)"]},
+                             tags={"kind": "dtype-spelling", "history": True}, size=n + 2)
+        # every two spellings of the group
+        for (n1, lo1, la1, d1, f1), (n2, lo2, la2, d2, f2) in itertools.combinations(built, 2):
+            same_values = np.array_equal(lo1, lo2) and np.array_equal(la1, la2)
+            if not same_values:      # (float16/32 numbers re-spelled as float64 keep their values: always equal here)
+                continue
+            if lo1.dtype == lo2.dtype:
+                probs = compare(d1, f1, d2, f2)
+                ctx.count("coord.dtype_spellings.pairs.same_dtype")
+                if probs:
+                    ctx.fail("BaseDefinition.update_hash", f"{cname}: the same {lo1.dtype.name} numbers spelled as {n1} and as {n2}: " + ", ".join(probs),
+                             {"class": cname, "shape": list(shape), "dtype": lo1.dtype.name, "spelling_a": n1, "spelling_b": n2,
+                              "lons": np.asarray(lons, dtype=np.float64).tolist(), "lats": np.asarray(lats, dtype=np.float64).tolist()},
+                             tags={"kind": "dtype-spelling", "natural_dtype": lo1.dtype.name}, size=n)
+            else:
+                # equal values held in different dtypes: what the code does is recorded, not judged (the property speaks of one dtype)
+                with warnings.catch_warnings():
+                    warnings.simplefilter("ignore")
+                    eq = bool(d1 == d2)
+                ctx.count("coord.dtype_spellings.pairs.other_dtype." + ("equal" if eq else "unequal") + "." + ("same_digest" if f1["digest"] == f2["digest"] else "different_digest"))
+
+
 def run(ctx):
     suite_area_spellings(ctx)
     suite_area_perturb(ctx)
@@ -690,3 +845,4 @@ def run(ctx):
     suite_swath(ctx)
     suite_area_full_slice(ctx)
     suite_resampler_histories(ctx)
+    suite_coord_dtype_spellings(ctx)
